@@ -607,6 +607,38 @@ func genContendScenario(r *rng) *Scenario {
 	return sc
 }
 
+// genFailScenario: shared pre-compiled Callables of which about half FAIL at run time (index
+// out of range, absent key, bad pattern), invoked by every task several times next to ones
+// that succeed: whatever an aborted evaluation leaves behind (a half-unwound stack in a pool,
+// a flag not reset, a lock not released) meets the next evaluation, of the same or another task.
+var failSrcs = []string{"l[99]", "m[\"absent\"]", "ll[5][0] + 1", "lo[7].id", "l[n]", "match(\"(\", s)", "[1, 2][l[0] + 5]", "if(b, l[99], 0) + n", "mo[\"zz\"].id"}
+var okSrcs = []string{"l[0] + n", "m[\"k1\"] + len(l)", "ll[0][1] + ll[1][0]", "lo[1].id + lo[0].id", "if(b, l[1], 0) + n", "string(l) + s", "max(l) - min(l)", "[l[0], l[1], n][2]"}
+
+func genFailScenario(r *rng) *Scenario {
+	sc := &Scenario{ColdFirst: r.chance(0.5)}
+	sc.Shared = []EngineSpec{{[]string{"vm", "vm", "vmcall", "closure", "interp"}[r.intn(5)], false, 0, false}}
+	np := 2 + r.intn(3)
+	for i := 0; i < np; i++ {
+		src := okSrcs[r.intn(len(okSrcs))]
+		if i == 0 || r.chance(0.4) {
+			src = failSrcs[r.intn(len(failSrcs))]
+		}
+		sc.Pre = append(sc.Pre, PreCompile{0, Prog{Src: src, Env: "map"}})
+	}
+	k := 2 + r.intn(3)
+	for t := 0; t < k; t++ {
+		var ops []Op
+		n := 2 + r.intn(5)
+		for i := 0; i < n; i++ {
+			ci := r.intn(np)
+			ops = append(ops, Op{K: "invoke", C: ci, CS: true, Env: invokeEnv(r, "map"), EnvSh: r.chance(0.3)})
+		}
+		sc.Tasks = append(sc.Tasks, ops)
+	}
+	sc.Sim = genSimConfig(r)
+	return sc
+}
+
 // genRegexScenario: every task evaluates match() with patterns the process has not
 // compiled before (some shared between tasks): anything memoised per pattern is
 // inserted and looked up concurrently.
@@ -773,6 +805,9 @@ func genScenario0(r *rng, cold bool) *Scenario {
 	}
 	if !cold && r.chance(0.06) {
 		return genLayoutScenario(r)
+	}
+	if !cold && r.chance(0.07) {
+		return genFailScenario(r)
 	}
 	if r.chance(0.07) {
 		return genRegisterScenario(r, cold)
